@@ -492,20 +492,23 @@ class World:
                     self.draining.add(me)
                     try:
                         mc = MultiChannel(members)
-                        q = mc.make_receive_queue(endmarker="ENDMARK") if want_end else mc.make_receive_queue()
+                        if op[2] == "none":   # endmarker=None is an endmarker like any other
+                            q = mc.make_receive_queue(endmarker=None)
+                        else:
+                            q = mc.make_receive_queue(endmarker="ENDMARK") if want_end else mc.make_receive_queue()
                     finally:
                         self.draining.discard(me)
                     for m in members:
                         self.ev("ret", side, "setcallback", m.id, 0, "ok", want_end)
-                    ns[op[3]] = (q, len(members))
+                    ns[op[3]] = (q, len(members), op[2] == "none")
                     members = mc = None
                 elif k == "mc_drain":
                     # read (channel, obj) pairs from the receive queue until every member delivered its endmarker
-                    q, nmem = ns[op[1]]
+                    q, nmem, none_end = ns[op[1]]
                     ends = 0
                     while ends < nmem:
                         chan, obj = q.get()
-                        if obj == "ENDMARK" and isinstance(obj, str):
+                        if (obj == "ENDMARK" and isinstance(obj, str)) or (none_end and obj is None):
                             ends += 1
                             self.ev("cb", side, "mq", chan.id, ENDMARK_TOKEN)
                         else:
